@@ -194,7 +194,7 @@ def _seq(S, spec):
         run = tree.nodes.get(PATHS[0])
         if run is not None and PATHS[0] in owner_of:
             S.check('C17:running_node_names_wrong_host',
-                    run.data.decode() == 'host-' + owner_of[PATHS[0]][0])
+                    run.data.decode() == svcs[owner_of[PATHS[0]][0]].hostname)
     S.reach('sequence_done')
 
 
